@@ -53,7 +53,7 @@ class ShapeType(Enum):
         """
         for k, v in cls.__members__.items():
             if v == name:
-                return k
+                return v
         raise ValueError(f"Unexpected name: {name}, choose from {list(cls.__members__.keys())}")
 
     def __str__(self) -> str:
